@@ -39,6 +39,12 @@ structure Ev (St P I V E : Type) where
 def pureEv {P I V E : Type} (spec : P → I → Outcome V E) : Ev Unit P I V E :=
   ⟨fun _ p i => ((), spec p i)⟩
 
+/-- the real evaluator: the C11 model of `DSLEvaluator.eval` for a DSL semantics `S`, its cache
+    being the state -/
+def dslEv {σ V E : Type} [DecidableEq σ] [DecidableEq V] (S : C11.Sem σ V E) (useCache : Bool) :
+    Ev (C11.Cache σ V) (Tree σ) (List V) V E :=
+  ⟨fun c p i => C11.eval S useCache c p i⟩
+
 /-- `_score`, kept as the exact fraction `num / den` computed by the code -/
 structure Score where
   num : Nat
@@ -154,13 +160,18 @@ inductive Step (St P E : Type) where
   | yielded (k : Susp P) (s : Solver P) (st : St)
   | finished (r : Stop E) (s : Solver P) (st : St)
 
+/-- `c.elapsed_time() >= timeout` at the coming iteration -/
+def deadlinePassed : List Bool → Bool
+  | [] => false
+  | b :: _ => b
+
 /-- pbe_solver.py:87-95: from the top of `for program in enumerator` to the next `yield`
     or to the end.  `T` is `self._test_(task, ·)`. -/
 def advance (T : St → P → St × Except E (Bool × Score)) :
     Solver P → St → List P → List Bool → Step St P E
   | s, st, [], _ => .finished .exhausted s st
   | s, st, p :: rest, dl =>
-    if dl.headD false then .finished .timeout (closeTask s p) st       -- :88-93
+    if deadlinePassed dl then .finished .timeout (closeTask s p) st       -- :88-93
     else
       let s1 := { s with programs := s.programs + 1 }                  -- :94
       match T st p with                                                -- :95
@@ -234,7 +245,7 @@ def verdict [DecidableEq V] (k : Kind) (spec : P → I → Outcome V E) (exs : L
 def horizon (vd : P → Except E Bool) : List P → List Bool → Nat
   | [], _ => 0
   | p :: rest, dl =>
-    if dl.headD false then 0 else
+    if deadlinePassed dl then 0 else
     match vd p with
     | .error _ => 0
     | .ok _ => 1 + horizon vd rest dl.tail
